@@ -99,6 +99,11 @@ class SyncWorker(base.Worker):
                     if listener == self.PIPE[0]:
                         continue
 
+                    # max_requests reached (or asked to stop) while serving
+                    # the previous listener: leave the rest in the backlog
+                    if not self.alive:
+                        break
+
                     try:
                         # the time spent in select() and in the previous
                         # listener's request must not count against this one
